@@ -889,3 +889,108 @@ def _alias_witness():
         if got not in want:
             return {"confirmed": True, "input": f"metadata alias={m!r}, Annotated aliases={a!r}, Config.aliases={c!r}", "why": f"serialized key {got!r}, expected {want!r}"}
     return None
+
+
+# ------------------------------------------------------------------------------------------- S9
+def verify_schema_overridden(pid, path="/repo/mashumaro/jsonschema/schema.py"):
+    """jsonschema/schema.py:Instance.get_overridden_serialization_method - the schema side of C10's resolution,
+    which build_json_schema runs for every position (C20: total; C06: same winner as the serializer).
+    Loop body triple (invariant: serialize_option is None):
+        pass_through -> return it; dict with a 'serialize' entry -> return the entry; SerializationStrategy whose
+        .serialize is not None -> return it; anything else (None, a deserialize-only dict) -> falls through, raising nothing."""
+    import mashumaro.jsonschema.schema as S
+    from mashumaro.helper import pass_through
+    from mashumaro.types import SerializationStrategy
+
+    unit = "jsonschema/schema.py:Instance.get_overridden_serialization_method"
+    oid = f"{pid}.S9[schema.get_overridden_serialization_method]/body"
+    try:
+        fn, _ = _method(path, "Instance", "get_overridden_serialization_method")
+    except LookupError as e:
+        return [_ob(oid, "undecided", unit, str(e))]
+    loops = [n for n in fn.body if isinstance(n, ast.For)]
+    if len(loops) != 1 or not isinstance(loops[0].target, ast.Name) or "iter_serialization_strategies" not in ast.unparse(loops[0].iter):
+        return [_ob(oid, "undecided", unit, "the function no longer scans iter_serialization_strategies in one loop")]
+    loop = loops[0]
+    assigned = sorted({t.id for n in ast.walk(loop) for t in (n.targets if isinstance(n, ast.Assign) else []) if isinstance(t, ast.Name)})
+    eng = pysym.Engine()
+    V = eng.V
+    self_t, strat = eng.fresh("self"), eng.fresh("strategy")
+    attr = lambda o, n: eng.func(f"attr!{n}", V, V)(o)  # noqa
+    none = eng.const(None)
+    ex = pysym.Executor(eng, dict(S.__dict__))
+    ex.assume_hasattr = True
+    ex.nonraising_prefixes = ("",)
+    env = {"self": Tm(self_t), loop.target.id: Tm(strat)}
+    for n in assigned:
+        env[n] = Ob(None)
+    try:
+        res = ex.exec_block(loop.body, pysym.State(env, []))
+    except pysym.NotInSubset as e:
+        return [_ob(oid, "undecided", unit, f"outside the verified subset: {e}")]
+    prover = pysym.Prover(eng, 10000)
+    PT = eng.const(pass_through)
+    ty = eng.typeof(strat)
+    is_dict = eng.issub(ty, eng.const(dict))
+    is_ss = eng.issub(ty, eng.const(SerializationStrategy))
+    entry = z3.If(eng.haskey(strat, eng.const("serialize")), eng.dval(strat, eng.const("serialize")), none)
+    meth = attr(strat, "serialize")
+    contributes = z3.Or(strat == PT, z3.And(is_dict, entry != none), z3.And(z3.Not(is_dict), is_ss, meth != none))
+    winner = z3.If(strat == PT, PT, z3.If(is_dict, entry, meth))
+    bad = []
+    live = 0
+    for st, sig in res:
+        pc = st.pc + st.hyps + [z3.Not(z3.And(is_dict, is_ss))]
+        if prover.sat(pc)[0] == z3.unsat:
+            continue
+        live += 1
+        if sig is None:
+            if prover.prove("b", pc, z3.Not(contributes)).status != "proved":
+                bad.append("a registration that counts is skipped")
+            for n in assigned:
+                if prover.prove("b", pc, eng.term(st.env[n]) == none).status != "proved":
+                    bad.append(f"invariant not restored: {n} may stay set")
+        elif sig[0] == "return":
+            if prover.prove("b", pc, z3.And(contributes, eng.term(sig[1]) == winner)).status != "proved":
+                bad.append("an iteration returns something other than what its registration provides for serialization")
+        elif sig[0] == "raise":
+            bad.append(f"the loop body raises ({sig[1]!r}) for some registration: build_json_schema is not total"[:200])
+        else:
+            bad.append(f"the loop body escapes: {sig[0]}")
+    w = None
+    if bad:
+        w = _schema_overridden_witness()
+    return [_ob(oid, "undecided" if not live else ("refuted" if bad else "proved"), unit + " (loop body, invariant: serialize_option is None)", "; ".join(sorted(set(bad))), paths=live, witness=w)]
+
+
+def _schema_overridden_witness():
+    import datetime
+    from dataclasses import dataclass, field
+
+    from mashumaro import DataClassDictMixin, pass_through
+    from mashumaro.config import BaseConfig
+    from mashumaro.jsonschema import build_json_schema
+    from mashumaro.types import SerializationStrategy
+
+    class St(SerializationStrategy):
+        def serialize(self, v) -> str:
+            return str(v)
+
+        def deserialize(self, v):
+            return v
+
+    regs = {"deserialize-only dict": {"deserialize": datetime.date.fromisoformat}, "pass_through": pass_through, "strategy": St(),
+            "serialize dict": {"serialize": lambda v: v.isoformat(), "deserialize": datetime.date.fromisoformat}}
+    for label, reg in regs.items():
+        for where in ("config", "metadata"):
+            ns = {"__annotations__": {"d": datetime.date}}
+            if where == "config":
+                ns["Config"] = type("Config", (BaseConfig,), {"serialization_strategy": {datetime.date: reg}})
+            else:
+                ns["d"] = field(metadata={"serialization_strategy": reg})
+            try:
+                K = dataclass(type("K", (DataClassDictMixin,), ns))
+                build_json_schema(K).to_dict()
+            except Exception as e:  # noqa
+                return {"confirmed": True, "input": f"d: datetime.date with a {label} registered in the {where}", "why": f"build_json_schema raised {type(e).__name__}: {str(e)[:160]}"}
+    return None
